@@ -76,52 +76,81 @@ def install_hooks():
 def make_config(topo):
     """Machine config (JSON-able) for a generated topology.
 
-    topo = {"trough_n": 2..5, "balls": k <= trough_n, "lock_k": 0..2, "t_trough": ms, "t_plunger": ms, "t_lock": ms,
-            "att_trough": n, "att_plunger": n, "att_lock": n, "loose": 0/1 (balls that start loose, unknown to MPF)}
+    topo = {"trough_n": 2..5, "balls": k <= trough_n, "plunger_k": 1|2 (capacity of the plunger/staging device),
+            "lock_k": 0..2, "lock_kind": "switch"|"entrance" (how the lock counts), "lock_to": "playfield"|"plunger"
+            (second source into the plunger), "t_*": eject timeouts ms, "att_*": max_eject_attempts,
+            "miss_extra": ball_missing_timeout - eject_timeout of the trough, "loose": balls MPF has never seen,
+            "game": 0|1 (real game with a ball_save (eject_delay) and a multiball), "save_delay": ms}
     """
     sw = {"s_pf": {"number": "1", "tags": "playfield_active"}}
     coils = {"c_trough": {"number": "1"}, "c_plunger": {"number": "2"}}
-    tsw = ["s_trough%d" % i for i in range(1, topo["trough_n"] + 1)]
-    for i, s in enumerate(tsw):
+    dt = device_table(topo)
+    for i, s in enumerate(dt["trough"]["sw"]):
         sw[s] = {"number": str(10 + i)}
-    sw["s_plunger"] = {"number": "2"}
+    for i, s in enumerate(dt["plunger"]["sw"]):
+        sw[s] = {"number": str(30 + i)}
     bd = {
-        "trough": {"ball_switches": ", ".join(tsw), "eject_coil": "c_trough", "tags": "trough, home, drain",
+        "trough": {"ball_switches": ", ".join(dt["trough"]["sw"]), "eject_coil": "c_trough",
+                   "tags": "trough, home, drain",
                    "eject_targets": "plunger", "eject_timeouts": "%dms" % topo["t_trough"],
                    "ball_missing_timeouts": "%dms" % (topo["t_trough"] + topo.get("miss_extra", 20000)),
                    "max_eject_attempts": topo.get("att_trough", 0)},
-        "plunger": {"ball_switches": "s_plunger", "eject_coil": "c_plunger", "eject_targets": "playfield",
+        "plunger": {"ball_switches": ", ".join(dt["plunger"]["sw"]), "eject_coil": "c_plunger",
+                    "eject_targets": "playfield",
                     "eject_timeouts": "%dms" % topo["t_plunger"],
                     "max_eject_attempts": topo.get("att_plunger", 0)},
     }
     if topo.get("lock_k", 0):
         coils["c_lock"] = {"number": "3"}
-        lsw = ["s_lock%d" % i for i in range(1, topo["lock_k"] + 1)]
-        for i, s in enumerate(lsw):
-            sw[s] = {"number": str(20 + i)}
-        bd["lock"] = {"ball_switches": ", ".join(lsw), "eject_coil": "c_lock", "eject_targets": "playfield",
+        lk = dt["lock"]
+        bd["lock"] = {"eject_coil": "c_lock", "eject_targets": lk["target"],
                       "eject_timeouts": "%dms" % topo["t_lock"], "max_eject_attempts": topo.get("att_lock", 0)}
+        if lk["target"] != "playfield":
+            bd["lock"]["ball_missing_timeouts"] = "%dms" % (topo["t_lock"] + topo.get("miss_extra", 20000))
+        if lk["kind"] == "entrance":
+            sw["s_lock_entrance"] = {"number": "20"}
+            bd["lock"]["entrance_switch"] = "s_lock_entrance"
+            bd["lock"]["ball_capacity"] = lk["cap"]
+        else:
+            for i, s in enumerate(lk["sw"]):
+                sw[s] = {"number": str(20 + i)}
+            bd["lock"]["ball_switches"] = ", ".join(lk["sw"])
     cfg = {
         "switches": sw, "coils": coils, "ball_devices": bd,
         "playfields": {"playfield": {"default_source_device": "plunger", "tags": "default"}},
-        "virtual_platform_start_active_switches": ", ".join(tsw[:topo["balls"]]),
+        "virtual_platform_start_active_switches": ", ".join(dt["trough"]["sw"][:topo["balls"]]),
     }
+    if topo.get("game"):
+        sw["s_start"] = {"number": "2", "tags": "start"}
+        cfg["game"] = {"balls_per_game": 1}
+        cfg["machine"] = {"min_balls": 1}
+        cfg["ball_saves"] = {"bs": {"enable_events": "ball_started", "active_time": "60s", "balls_to_save": -1,
+                                    "eject_delay": "%dms" % topo.get("save_delay", 1000), "auto_launch": True}}
+        cfg["multiballs"] = {"mb": {"ball_count": 2, "ball_count_type": "total", "shoot_again": "0",
+                                    "start_events": "verif_mb_start"}}
     return cfg
 
 
 def device_table(topo):
-    """name -> dict(switches, cap, target, coil, timeout_ms, attempts) ; order fixes the numeric ids"""
+    """name -> dict(sw, cap, kind, target, coil, timeout, att, trough, sources); order fixes the numeric ids"""
+    pk = topo.get("plunger_k", 1)
     t = {
         "trough": {"sw": ["s_trough%d" % i for i in range(1, topo["trough_n"] + 1)], "target": "plunger",
-                   "coil": "c_trough", "timeout": topo["t_trough"], "att": topo.get("att_trough", 0), "trough": True},
-        "plunger": {"sw": ["s_plunger"], "target": "playfield", "coil": "c_plunger", "timeout": topo["t_plunger"],
-                    "att": topo.get("att_plunger", 0), "trough": False},
+                   "coil": "c_trough", "timeout": topo["t_trough"], "att": topo.get("att_trough", 0), "trough": True,
+                   "kind": "switch"},
+        "plunger": {"sw": ["s_plunger%d" % i for i in range(1, pk + 1)], "target": "playfield", "coil": "c_plunger",
+                    "timeout": topo["t_plunger"], "att": topo.get("att_plunger", 0), "trough": False,
+                    "kind": "switch"},
     }
     if topo.get("lock_k", 0):
-        t["lock"] = {"sw": ["s_lock%d" % i for i in range(1, topo["lock_k"] + 1)], "target": "playfield",
-                     "coil": "c_lock", "timeout": topo["t_lock"], "att": topo.get("att_lock", 0), "trough": False}
+        t["lock"] = {"sw": ["s_lock%d" % i for i in range(1, topo["lock_k"] + 1)],
+                     "target": topo.get("lock_to", "playfield"),
+                     "coil": "c_lock", "timeout": topo["t_lock"], "att": topo.get("att_lock", 0), "trough": False,
+                     "kind": topo.get("lock_kind", "switch")}
     for d in t.values():
         d["cap"] = len(d["sw"])
+    for d, v in t.items():
+        v["sources"] = [s for s, w in t.items() if w["target"] == d]
     return t
 
 
@@ -142,7 +171,7 @@ class World:
         self.devs = device_table(self.topo)
         self.log = []
         self.loose = self.topo.get("loose", 0)      # balls physically loose on the playfield
-        self.transit = []       # [src, dst] balls physically on their way
+        self.transit = []       # [src, dst, leave_time_us] balls physically on their way
         self.occ = {d: [False] * v["cap"] for d, v in self.devs.items()}
         for i in range(self.topo["balls"]):
             self.occ["trough"][i] = True
@@ -151,19 +180,25 @@ class World:
         self.faults = {d: list(case.get("faults", {}).get(d, [])) for d in self.devs}
         self.claim = list(case.get("claims", []))       # lock claim decisions, consumed per unclaimed ball
         self.last_phys = 0.0
-        self.pulse_checks = []
+        self.last_phys_dev = {d: 0.0 for d in self.devs}
+        self.spont_loss = {d: False for d in self.devs}      # a ball left d although nobody ejected it
+        self.idle_since = {d: 0.0 for d in self.devs}
+        self.visits = {d: [] for d in self.devs}        # [arrive_us, leave_us or None] of balls from the playfield
         self.error = None
         self.delivered = {}     # target -> balls physically delivered
         self.rig = None
         self.names = set()
         self.pending_phys = 0
         self.sim_error = None
+        self.game_events = []
 
     # -- recording ----------------------------------------------------------------------------
     def write(self, kind, obj, attr, old, new):
         if self.rig is None or getattr(obj, "machine", None) is not self.rig.machine:
             return
         name = "bc" if kind == "bc" else obj.name
+        if kind == "dev" and attr == "state" and name in self.idle_since:
+            self.idle_since[name] = self.now() if new == "idle" else None
         self.log.append(["W", name, attr, old, new])
 
     def snap(self):
@@ -180,7 +215,7 @@ class World:
 
     def truth(self):
         return {"dev": {d: sum(1 for x in o if x) for d, o in self.occ.items()}, "loose": self.loose,
-                "transit": [list(x) for x in self.transit], "total": self.total}
+                "transit": [list(x[:2]) for x in self.transit], "total": self.total}
 
     # -- boot ---------------------------------------------------------------------------------
     def boot(self):
@@ -204,6 +239,10 @@ class World:
             ev.add_handler(n, self._mk_handler(n), priority=1000000)
         if "lock" in self.devs:
             ev.add_handler("balldevice_lock_ball_enter", self._claim_handler, priority=5)
+        if self.topo.get("game"):
+            for n in ("ball_save_bs_saving_ball", "multiball_mb_started", "game_started", "game_ended",
+                      "ball_started", "ball_ended"):
+                ev.add_handler(n, self._mk_game_handler(n), priority=1000000)
         for d, v in self.devs.items():
             self._wrap_coil(d, m.coils[v["coil"]])
         self.rig.advance(1.0)
@@ -225,7 +264,16 @@ class World:
         world = self
 
         def handler(**kwargs):
-            world.log.append(["H", name, world.snap()])
+            world.log.append(["H", name, world.snap(), world.truth()["dev"]])
+        return handler
+
+    def _mk_game_handler(self, name):
+        world = self
+
+        def handler(**kwargs):
+            g = world.rig.machine.game
+            world.game_events.append([name, int(kwargs.get("balls", 0) or 0), world.now_us(),
+                                      g.balls_in_play if g else None])
         return handler
 
     def _claim_handler(self, unclaimed_balls, **kwargs):
@@ -264,73 +312,133 @@ class World:
             self.sim_error = "%s: %s" % (type(e).__name__, e)
 
     def sw(self, name, state):
-        self.last_phys = self.now()
+        self.last_phys = max(self.last_phys, self.now())
         self.rig.machine.switch_controller.process_switch(name, state=state, logical=True)
+
+    def touched(self, d, extra=0.0):
+        if d in self.last_phys_dev:
+            self.last_phys_dev[d] = max(self.last_phys_dev[d], self.now() + extra)
+        self.last_phys = max(self.last_phys, self.now() + extra)
 
     def count(self, d):
         return sum(1 for x in self.occ[d] if x)
+
+    def seat_off(self, d, idx):
+        """a ball leaves seat idx of d"""
+        self.occ[d][idx] = False
+        self.touched(d)
+        if self.devs[d]["kind"] == "switch":
+            self.sw(self.devs[d]["sw"][idx], 0)
+
+    def seat_on(self, d, idx):
+        self.occ[d][idx] = True
+        self.since[d][idx] = self.now()
+        if self.devs[d]["kind"] == "switch":
+            self.touched(d)
+            self.sw(self.devs[d]["sw"][idx], 1)
+        else:
+            self.entrance_hit(d)
+
+    def entrance_hit(self, d):
+        """a ball rolls over the entrance switch of an entrance-counted device"""
+        self.touched(d, 2.2)        # settle_time_ms (2 s) before the count is stable again
+        self.sw("s_%s_entrance" % d, 1)
+        self.at(60, self.sw, "s_%s_entrance" % d, 0)
+
+    def oldest(self, d):
+        return min((self.since[d][i], i) for i, x in enumerate(self.occ[d]) if x)[1]
 
     def on_pulse(self, d):
         v = self.devs[d]
         tgt = v["target"]
         room = None
+        info = {"target": tgt, "has_ball": self.count(d) > 0, "t": self.now_us(),
+                "state": self.rig.machine.ball_devices[d].state,
+                "transit": [list(x[:2]) for x in self.transit]}
         if tgt != "playfield":
-            inbound = sum(1 for s, t in self.transit if t == tgt)
-            room = self.devs[tgt]["cap"] - self.count(tgt) - inbound
-        bd = self.rig.machine.ball_devices[d]
-        own = sum(1 for s_, t_ in self.transit if t_ == tgt and s_ == d)
-        self.log.append(["C", d, self.snap(), {"target": tgt, "room": room, "has_ball": self.count(d) > 0,
-                                                "transit": [list(x) for x in self.transit],
-                                                "room_without_own": None if room is None else room + own,
-                                                "state": bd.state, "t": self.now_us()}])
+            inbound = [x for x in self.transit if x[1] == tgt]
+            room = self.devs[tgt]["cap"] - self.count(tgt) - len(inbound)
+            own = [x for x in inbound if x[0] == d]
+            info["room_without_own"] = room + len(own)
+            miss = v["timeout"] + self.topo.get("miss_extra", 20000)
+            for x in own:
+                # has MPF given up on this ball?  (a) a ball from the playfield sat in <d> (debounced) while this
+                # ball's eject was past its timeout: taken for the ball falling back; (b) ball_missing_timeout is over
+                fc_start = x[2] + v["timeout"] * 1000
+                foreign = any((lv is None or lv + 500000 >= fc_start) and ar + 500000 <= self.now_us() and
+                              ar >= x[2] - 600000 for ar, lv in self.visits[d])
+                if foreign or self.now_us() - x[2] >= (v["timeout"] + miss - 300) * 1000:
+                    x[3] = True
+            if own:
+                info["own_given_up"] = all(x[3] for x in own)
+        info["room"] = room
+        self.log.append(["C", d, self.snap(), info])
         if self.count(d) == 0:
             return
         f = self.faults[d].pop(0) if self.faults[d] else ["ok", 50, 400, 300]
+        if v["kind"] == "entrance" and f[0] in ("stuck", "fallback"):
+            f = ["ok", 50, 400, 300]    # an entrance-counted device cannot notice either; not generated
         kind = f[0]
         if kind == "stuck":
             self.log.append(["S", "stuck", d, d, self.now_us()])
             return
         self.at(f[1], self.ball_leaves, d, tgt, f)
+        if kind == "double" and self.count(d) >= 2 and not v["trough"]:
+            self.at(f[1] + 15, self.ball_leaves, d, tgt, ["ok", 0, f[2], -1])
 
     def ball_leaves(self, d, tgt, f):
         if self.count(d) == 0:
             return
         # the ball that has been sitting in the device for the longest time is the one at the exit
-        idx = min((self.since[d][i], i) for i, x in enumerate(self.occ[d]) if x)[1]
-        self.occ[d][idx] = False
+        idx = self.oldest(d)
         kind = f[0]
         dst = d if kind == "fallback" else tgt
         self.log.append(["S", "leave", d, dst, self.now_us()])
         if dst == "playfield":
             self.loose += 1
             self.delivered["playfield"] = self.delivered.get("playfield", 0) + 1
-            self.sw(self.devs[d]["sw"][idx], 0)
+            self.seat_off(d, idx)
             if len(f) > 3 and f[3] is not None and f[3] >= 0:
                 self.at(f[3], self.pf_hit)
             return
-        self.transit.append([d, dst])
-        self.sw(self.devs[d]["sw"][idx], 0)
-        self.at(f[2], self.ball_arrives, d, dst)
+        tid = self.now_us()
+        self.transit.append([d, dst, tid, False])
+        self.seat_off(d, idx)
+        self.at(f[2], self.ball_arrives, d, dst, None, tid)
 
-    def ball_arrives(self, src, dst):
-        if [src, dst] in self.transit:
-            self.transit.remove([src, dst])
-        if dst == "playfield":
-            self.loose += 1
-            self.log.append(["S", "arrive", src, dst, self.now_us()])
-            return
+    def ball_arrives(self, src, dst, dwell=None, tid=None):
+        for x in self.transit:
+            if x[0] == src and x[1] == dst and (tid is None or x[2] == tid):
+                self.transit.remove(x)
+                break
         free = [i for i, x in enumerate(self.occ[dst]) if not x]
         if not free:
-            # physically no room: the ball bounces back to the playfield
+            # physically no room: the ball bounces back to the playfield (over the entrance switch, if there is one)
             self.loose += 1
             self.log.append(["S", "bounce", src, dst, self.now_us()])
+            if self.devs[dst]["kind"] == "entrance":
+                self.entrance_hit(dst)
             return
-        self.occ[dst][free[0]] = True
-        self.since[dst][free[0]] = self.now()
         self.log.append(["S", "arrive", src, dst, self.now_us()])
         if src != dst:
             self.delivered[dst] = self.delivered.get(dst, 0) + 1
-        self.sw(self.devs[dst]["sw"][free[0]], 1)
+        self.seat_on(dst, free[0])
+        if src == "playfield":
+            self.visits[dst].append([self.now_us(), None])
+            if dwell is not None:
+                self.at(dwell, self.visit_ends, dst, free[0], self.now_us())
+
+    def visit_ends(self, d, idx, arrived_us):
+        """the ball that dropped into <d> dwell ms ago bounces out again"""
+        if not self.occ[d][idx] or int(round(self.since[d][idx] * 1e6)) != arrived_us:
+            return      # it has been ejected meanwhile
+        for v in self.visits[d]:
+            if v[0] == arrived_us:
+                v[1] = self.now_us()
+        self.loose += 1
+        self.log.append(["S", "leak", d, "playfield", self.now_us()])
+        self.spont_loss[d] = True
+        self.seat_off(d, idx)
 
     def pf_hit(self):
         if self.loose <= 0:
@@ -339,29 +447,30 @@ class World:
         self.sw("s_pf", 1)
         self.sw("s_pf", 0)
 
-    def loose_to(self, dst, transit_ms):
+    def loose_to(self, dst, transit_ms, dwell=None):
         if self.loose <= 0 or dst not in self.devs:
             return
-        inbound = sum(1 for s, t in self.transit if t == dst)
-        if self.count(dst) + inbound >= self.devs[dst]["cap"]:
-            return      # physically impossible: no room
+        inbound = sum(1 for x in self.transit if x[1] == dst)
+        if self.count(dst) + inbound >= self.devs[dst]["cap"] and self.devs[dst]["kind"] != "entrance":
+            return      # physically impossible: no room (an entrance-counted device: the ball bounces off)
         self.loose -= 1
-        self.transit.append(["playfield", dst])
+        tid = self.now_us()
+        self.transit.append(["playfield", dst, tid, False])
         self.log.append(["S", "leave", "playfield", dst, self.now_us()])
-        self.at(transit_ms, self.ball_arrives, "playfield", dst)
+        self.at(transit_ms, self.ball_arrives, "playfield", dst, dwell, tid)
 
-    def leak(self, d):
-        """a ball sitting in <d> jumps out onto the playfield although nobody ejected it"""
-        if d not in self.devs or self.count(d) == 0:
+    def leak(self, d, n=1):
+        """n balls sitting in idle <d> jump out onto the playfield although nobody ejected them"""
+        if d not in self.devs or self.count(d) == 0 or self.devs[d]["kind"] != "switch":
             return
         if self.rig.machine.ball_devices[d].state != "idle":
-            return      # only model the idle case: otherwise it is physically the same as a (successful) eject
-        idx = min((self.since[d][i], i) for i, x in enumerate(self.occ[d]) if x)[1]
-        self.occ[d][idx] = False
-        self.loose += 1
-        self.log.append(["S", "leak", d, "playfield", self.now_us()])
-        self.sw(self.devs[d]["sw"][idx], 0)
-        self.last_phys = self.now() + 5.6       # MPF waits idle_missing_ball_timeout (5 s) before it books the loss
+            return      # only the idle case: otherwise it is physically the same as a (successful) eject
+        for _ in range(min(n, self.count(d))):
+            idx = self.oldest(d)
+            self.loose += 1
+            self.log.append(["S", "leak", d, "playfield", self.now_us()])
+            self.spont_loss[d] = True
+            self.seat_off(d, idx)
 
     # -- script -------------------------------------------------------------------------------
     def do_action(self, a):
@@ -387,12 +496,22 @@ class World:
             m.ball_controller.collect_balls()
         elif k == "drain":
             self.loose_to("trough", a[1])
+        elif k == "visit":          # a ball drops into the trough and bounces out again after a[2] ms
+            self.loose_to("trough", a[1], a[2])
         elif k == "lockshot":
             self.loose_to("lock", a[1])
         elif k == "pfhit":
             self.pf_hit()
         elif k == "lockleak":
-            self.leak("lock")
+            self.leak("lock", a[1] if len(a) > 1 else 1)
+        elif k == "start_game":
+            self.log.append(["A", "start_game"])
+            self.sw("s_start", 1)
+            self.sw("s_start", 0)
+        elif k == "multiball":
+            self.log.append(["A", "multiball"])
+            if m.game:
+                m.events.post("verif_mb_start")
         elif k == "wait":
             pass
         else:
@@ -402,7 +521,8 @@ class World:
         m = self.rig.machine
         if self.heap_has_physical() or self.transit:
             return False
-        if self.now() - self.last_phys < 1.2:
+        now = self.now()
+        if now - self.last_phys < 1.2:
             return False
         for d in self.devs:
             bd = m.ball_devices[d]
@@ -410,6 +530,11 @@ class World:
                 return False
             if not bd.outgoing_balls_handler.is_idle:
                 return False
+            if self.spont_loss[d]:
+                # MPF waits idle_missing_ball_timeout (5 s) of idle quiet before it books a ball as lost
+                since = self.idle_since[d]
+                if since is None or now - max(since, self.last_phys_dev[d]) < 5.8:
+                    return False
         return True
 
     def heap_has_physical(self):
@@ -443,16 +568,20 @@ class World:
                 quiet = 0
                 while self.now() < end:
                     self.step_to(self.now() + 1.0)
-                    if self.is_rest():
+                    if self.is_rest() and not self.game_busy():
                         quiet += 1
                         if quiet >= self.case.get("quiet_s", 3):
                             break
                     else:
                         quiet = 0
                 self.final_rest = self.is_rest()
+                g = self.rig.machine.game
                 self.final = {"snap": self.snap(), "truth": self.truth(),
                               "idle": {d: self.rig.machine.ball_devices[d].outgoing_balls_handler.is_idle
-                                       for d in self.devs}}
+                                       for d in self.devs},
+                              "game": None if not self.topo.get("game") else
+                              {"running": g is not None, "balls_in_play": g.balls_in_play if g else 0,
+                               "events": self.game_events}}
             except Exception as e:      # MPF itself raised (the test loop stops on the first exception)
                 self.error = "%s: %s" % (type(e).__name__, str(e)[:300])
         finally:
@@ -466,6 +595,13 @@ class World:
         return {"log": self.log, "error": self.error, "sim_error": self.sim_error,
                 "final_rest": getattr(self, "final_rest", False), "final": getattr(self, "final", None),
                 "delivered": self.delivered}
+
+    def game_busy(self):
+        """a pending ball save (eject_delay) is not visible in any device: wait for it"""
+        if not self.topo.get("game"):
+            return False
+        return any(self.now_us() - e[2] < (self.topo.get("save_delay", 1000) + 1500) * 1000
+                   for e in self.game_events if e[0] == "ball_save_bs_saving_ball")
 
 
 def run_world(case):
@@ -493,10 +629,129 @@ def gen_fault(rng, timeout_ms, to_pf, profile, miss_extra=20000):
     return ["ok", leave, rng.choice([150, 300, 600, 1000, 1400]), -1]
 
 
+TEMPLATES = ["two_feeders", "entrance_overfill", "flicker_late", "multi_leak", "double_kick", "cap2_mid_eject"]
+
+
+def _base_topo(rng, **kw):
+    n = kw.pop("trough_n", rng.choice([3, 4, 5]))
+    t = {"trough_n": n, "balls": n, "plunger_k": 1, "lock_k": 0, "lock_kind": "switch", "lock_to": "playfield",
+         "t_trough": rng.choice([3000, 5000]), "t_plunger": rng.choice([2000, 3000, 6000]),
+         "t_lock": rng.choice([2000, 3000, 6000]), "att_trough": 0, "att_plunger": 0, "att_lock": 0,
+         "miss_extra": 20000, "loose": 0}
+    t.update(kw)
+    return t
+
+
+def _tail(rng, topo, n=None):
+    acts = []
+    names = ["add_ball", "drain", "pfhit", "wait"] + (["lockshot", "eject"] if topo["lock_k"] else [])
+    for _ in range(rng.choice([0, 1, 2, 3]) if n is None else n):
+        a = rng.choice(names)
+        dt = rng.choice([300, 1500, 4000, 9000])
+        if a in ("drain", "lockshot"):
+            acts.append([dt, a, rng.choice([200, 500, 900])])
+        elif a == "eject":
+            acts.append([dt, a, "lock"])
+        else:
+            acts.append([dt, a])
+    return acts
+
+
+def gen_template(rng, profile):
+    """schedules that the uniform generator reaches too rarely; every number is still drawn from rng"""
+    okpf = lambda: ["ok", rng.choice([20, 50, 80]), 0, rng.choice([100, 300, 700])]     # noqa
+    okdev = lambda: ["ok", rng.choice([20, 50, 80]), rng.choice([300, 600, 1000, 1400]), -1]   # noqa
+    if profile == "two_feeders":
+        # lock -> plunger <- trough: a lock release and a ball request overlap, both want the one-slot plunger
+        topo = _base_topo(rng, lock_k=rng.choice([1, 2]), lock_to="plunger")
+        gap = rng.choice([0, 30, 150, 400, 800])
+        pair = [["eject", "lock"], ["add_ball"]]
+        rng.shuffle(pair)
+        script = [[500, "add_ball"], [rng.choice([4000, 5000]), "lockshot", rng.choice([300, 500, 900])],
+                  [rng.choice([3000, 5000]) + 0] + pair[0], [gap] + pair[1]] + _tail(rng, topo)
+        faults = {"trough": [okdev() for _ in range(4)], "plunger": [okpf() for _ in range(6)],
+                  "lock": [okdev() for _ in range(4)]}
+        claims = [1, 1, 1, 1]
+    elif profile == "entrance_overfill":
+        # entrance-counted lock filled to capacity, then one more ball rolls over its entrance switch
+        k = rng.choice([1, 2])
+        topo = _base_topo(rng, trough_n=rng.choice([k + 1, k + 2, 5]), lock_k=k, lock_kind="entrance")
+        script = []
+        for j in range(k + 1):
+            script.append([500 if j == 0 else rng.choice([3000, 3500]), "add_ball"])
+        for j in range(k + 1):
+            script.append([rng.choice([2500, 3000, 4000]), "lockshot", rng.choice([400, 700, 900])])
+        script += _tail(rng, topo)
+        faults = {"trough": [okdev() for _ in range(6)], "plunger": [okpf() for _ in range(8)],
+                  "lock": [okpf() for _ in range(4)]}
+        claims = [1] * 6
+    elif profile == "flicker_late":
+        # a ball on the playfield drops into the trough for < 1 s and bounces out again while the trough's own
+        # ball is still (late) on its way to the plunger
+        n = rng.choice([3, 4, 5])
+        topo = _base_topo(rng, trough_n=n, balls=n - 1)
+        late = topo["t_trough"] + rng.choice([800, 1500, 2500])
+        script = [[500, "add_ball"], [rng.choice([3500, 4500]), "add_ball"],
+                  [rng.choice([250, 400, 600]), "visit", 150, rng.choice([700, 850, 1000])]] + _tail(rng, topo)
+        faults = {"trough": [okdev(), ["ok", 50, late, -1]] + [okdev() for _ in range(4)],
+                  "plunger": [okpf() for _ in range(8)], "lock": []}
+        claims = []
+    elif profile in ("multi_leak", "double_kick"):
+        # two balls locked; then both jump out of the idle lock at once / one pulse kicks both out
+        topo = _base_topo(rng, lock_k=2)
+        script = [[500, "add_ball"], [rng.choice([3000, 3500]), "add_ball"],
+                  [rng.choice([3500, 4500]), "lockshot", rng.choice([300, 600])],
+                  [rng.choice([1500, 2500]), "lockshot", rng.choice([300, 600])]]
+        if profile == "multi_leak":
+            script.append([rng.choice([3000, 5000]), "lockleak", 2])
+            lockf = [okpf() for _ in range(4)]
+        else:
+            script.append([rng.choice([3000, 5000]), rng.choice(["eject_all", "eject_all", "collect"])] +
+                          (["lock"] if script is None else []))
+            if script[-1][1] == "eject_all":
+                script[-1] = script[-1][:2] + ["lock"]
+            lockf = [["double", rng.choice([20, 50]), 0, rng.choice([100, 300])]] + [okpf() for _ in range(4)]
+        script += _tail(rng, topo)
+        faults = {"trough": [okdev() for _ in range(6)], "plunger": [okpf() for _ in range(8)], "lock": lockf}
+        claims = [1, 1, 1, 1]
+    elif profile == "cap2_mid_eject":
+        # a two-ball staging device: the trough gets ready to feed it exactly while it ejects to the playfield
+        topo = _base_topo(rng, plunger_k=2, lock_k=rng.choice([0, 0, 1]))
+        script = [[500, "add_ball"], [rng.choice([0, 100, 300, 700]), "add_ball"]]
+        if rng.random() < 0.5:
+            script.append([rng.choice([0, 200, 1500]), "add_ball"])
+        script += _tail(rng, topo)
+        faults = {"trough": [okdev() for _ in range(6)],
+                  "plunger": [["ok", rng.choice([50, 120]), 0, rng.choice([300, 700, 1500, -1])] for _ in range(8)],
+                  "lock": [okpf() for _ in range(4)]}
+        claims = [1, 0, 1, 0]
+    elif profile == "save_twice":
+        # real game: ball save with eject_delay, two balls in play (multiball), two drains close to each other
+        topo = _base_topo(rng, game=1, save_delay=rng.choice([800, 1500, 2500]))
+        d = topo["save_delay"]
+        script = [[500, "start_game"], [rng.choice([3500, 4500]), "multiball"],
+                  [rng.choice([4500, 6000]), "drain", rng.choice([200, 400])],
+                  [rng.choice([100, 300, 600, max(100, d - 200), d + 600]), "drain", rng.choice([200, 400])]]
+        for _ in range(rng.choice([0, 0, 1, 2])):
+            script.append([rng.choice([4000, 7000]), rng.choice(["drain", "pfhit"]), 300])
+        faults = {"trough": [okdev() if rng.random() < 0.85 else ["stuck"] for _ in range(10)],
+                  "plunger": [okpf() if rng.random() < 0.85 else ["stuck"] for _ in range(10)], "lock": []}
+        claims = []
+    else:
+        raise ValueError(profile)
+    return {"topo": topo, "script": script, "faults": faults, "claims": claims, "profile": profile}
+
+
 def gen_case(rng, tier, i, profile=None):
+    if profile is None and rng.random() < 0.36:
+        profile = rng.choice(TEMPLATES)
+    if profile in TEMPLATES or profile == "save_twice":
+        return gen_template(rng, profile)
     profile = profile or rng.choice(["calm", "calm", "faulty", "faulty", "busy"])
     n = rng.choice([2, 3, 3, 4, 5])
     topo = {"trough_n": n, "balls": rng.choice([n, n, n, max(1, n - 1)]), "lock_k": rng.choice([0, 0, 1, 2, 2]),
+            "plunger_k": rng.choice([1, 1, 1, 2]), "lock_kind": rng.choice(["switch", "switch", "switch", "entrance"]),
+            "lock_to": rng.choice(["playfield", "playfield", "playfield", "plunger"]),
             "t_trough": rng.choice([2000, 3000, 5000]), "t_plunger": rng.choice([2000, 3000, 6000]),
             "t_lock": rng.choice([2000, 3000, 6000]),
             "att_trough": rng.choice([0, 0, 0, 2, 3]), "att_plunger": rng.choice([0, 0, 0, 2, 4]),
@@ -506,9 +761,9 @@ def gen_case(rng, tier, i, profile=None):
     if topo["loose"] and topo["balls"] == n:
         topo["balls"] = n - 1
     acts = []
-    w = [("add_ball", 32), ("drain", 24), ("pfhit", 5), ("request", 5), ("collect", 3), ("wait", 6)]
+    w = [("add_ball", 32), ("drain", 24), ("pfhit", 5), ("request", 5), ("collect", 3), ("wait", 6), ("visit", 3)]
     if topo["lock_k"]:
-        w += [("lockshot", 16), ("eject", 7), ("eject_all", 3), ("lockleak", 3)]
+        w += [("lockshot", 16), ("eject", 7), ("eject_all", 3), ("lockleak", 4)]
     names = [a for a, _ in w]
     weights = [x for _, x in w]
     for _ in range(rng.choice([2, 3, 4, 6, 8, 12] if profile != "busy" else [8, 12, 16])):
@@ -519,6 +774,10 @@ def gen_case(rng, tier, i, profile=None):
             dt = rng.choice([0, 100, 600, 1500, 4000, 9000, 15000])
         if a in ("drain", "lockshot"):
             acts.append([dt, a, rng.choice([200, 500, 900, 1500])])
+        elif a == "visit":
+            acts.append([dt, a, rng.choice([200, 500]), rng.choice([300, 800, 1500])])
+        elif a == "lockleak":
+            acts.append([dt, a, rng.choice([1, 1, 2])])
         elif a == "request":
             acts.append([dt, a, "plunger"])
         elif a in ("eject", "eject_all"):
@@ -526,9 +785,12 @@ def gen_case(rng, tier, i, profile=None):
         else:
             acts.append([dt, a])
     faults = {}
-    for d, key, to_pf in (("trough", "t_trough", False), ("plunger", "t_plunger", True), ("lock", "t_lock", True)):
+    for d, key in (("trough", "t_trough"), ("plunger", "t_plunger"), ("lock", "t_lock")):
+        to_pf = d == "plunger" or (d == "lock" and topo["lock_to"] == "playfield")
         faults[d] = [gen_fault(rng, topo[key], to_pf, profile, topo["miss_extra"])
                      for _ in range(rng.choice([4, 8, 16]))]
+        if d != "trough" and rng.random() < 0.15:
+            faults[d].insert(rng.randrange(3), ["double", 50, 300, rng.choice([100, 300, -1])])
     claims = [1 if rng.random() < 0.6 else 0 for _ in range(8)]
     return {"topo": topo, "script": acts, "faults": faults, "claims": claims, "profile": profile}
 
@@ -743,17 +1005,21 @@ def oracle_c04(case, out):
                         add("count-negative", "device.balls == %d for %s %s" % (balls, d, where))
                 if counted < 0:
                     add("count-negative", "counted_balls == %d for %s %s" % (counted, d, where))
-                if balls > v["cap"] or counted > v["cap"]:
+                mid_eject = snap[d][3] in ("ball_left", "failed_confirm")
+                if balls > v["cap"] or counted > v["cap"] + (1 if mid_eject else 0):
                     add("count-above-capacity", "%s: balls=%d counted=%d capacity=%d %s" %
                         (d, balls, counted, v["cap"], where))
             if snap["playfield"][0] < 0:
                 unknown = total - snap["known"]
-                if snap["playfield"][0] == -1 and (snap["playfield"][2] > 0 or unknown > 0):
+                tdev = it[3]["dev"] if k == "T" else it[3] if k == "H" else None
+                behind = tdev is not None and any(snap[d][0] > tdev[d] and snap[d][3] == "idle" for d in devs)
+                if snap["playfield"][0] == -1 and (snap["playfield"][2] > 0 or unknown > 0 or behind):
                     # a capture from the playfield is booked before the eject confirmation (or the new-ball
                     # detection) that the very same capture triggers
                     add("playfield-balls-negative-transient",
                         "playfield.balls == -1 %s (a ball was captured before the pending eject to the playfield "
-                        "was confirmed / before it was known to exist)" % where)
+                        "was confirmed / before it was known to exist / before its loss from an idle device was "
+                        "booked)" % where)
                 else:
                     add("playfield-balls-negative", "playfield.balls == %d %s" % (snap["playfield"][0], where))
         if k == "T" and it[2]:
@@ -777,10 +1043,12 @@ def oracle_c04(case, out):
             if info["room"] is not None and info["room"] <= 0:
                 t = info["target"]
                 believed = devs[t]["cap"] - snap[t][0] - snap[t][4]
-                own = any(x == [it[1], t] for x in info.get("transit", []))
-                if believed > 0 and own and info["room_without_own"] > 0:
-                    # MPF has given up on an earlier ball of this very eject (took a foreign ball for the returned one,
-                    # or booked it as lost after ball_missing_timeout) which is physically still on its way
+                own = any(x[:2] == [it[1], t] for x in info.get("transit", []))
+                gave_up = bool(info.get("own_given_up"))
+                if believed > 0 and own and info["room_without_own"] > 0 and gave_up:
+                    # MPF has given up on an earlier ball of this very eject (took a foreign ball that sat in the source
+                    # during failed_confirm for the returned one, or booked it as lost after ball_missing_timeout)
+                    # which is physically still on its way
                     add("pulse-while-own-late-ball-in-transit",
                         "coil of %s pulsed towards %s although a ball it ejected earlier is still on its way there "
                         "and fills the last free place (MPF believes it returned or is lost)" % (it[1], t))
@@ -795,6 +1063,8 @@ def oracle_c04(case, out):
                     add("pulse-towards-full-device", "coil of %s pulsed while its target %s has no room "
                         "(MPF's own numbers: capacity %d, counted %d, incoming %d)" %
                         (it[1], t, devs[t]["cap"], snap[t][0], snap[t][4]))
-            if info["state"] != "ejecting":
+            okstates = ("ejecting", "ball_left") if devs[it[1]]["kind"] == "entrance" else ("ejecting",)
+            if info["state"] not in okstates:     # (an entrance counter assumes "left" 10 ms after the command,
+                                                  #  the driver may delay the pulse up to eject_coil_max_wait_ms)
                 add("pulse-outside-eject", "coil of %s pulsed in state %s" % (it[1], info["state"]))
     return fails
